@@ -13,6 +13,7 @@ Prop == IOEnv.PROP      \* "C11" | "C12": which property's events this run judge
 
 ChainOK(e) == /\ e.err = ""
               /\ e.principal = e.wprincipal /\ e.home = e.whome
+              /\ e.principal2 = e.wprincipal2        \* a second user, same handler, same starting point
               /\ e.cols = e.wcols
               /\ e.objs = e.wobjs
 
@@ -65,7 +66,7 @@ Sig(e) == CASE e.k = "route" -> "route " \o e.srv \o " " \o e.m \o " level=" \o 
                                 \o " ptrail=" \o B(e.ptrail) \o " rtrail=" \o B(e.rtrail) \o (IF e.m = "PROPFIND" THEN " depth=" \o e.depth ELSE "") \o " seg=" \o e.seg
                                 \o " st=" \o ToString(e.st)
             [] e.k = "chain" -> "chain " \o e.srv \o " start=" \o e.start \o " prefixlen=" \o ToString(e.plen) \o " ptrail=" \o B(e.ptrail) \o " seg=" \o e.seg \o
-                                (IF e.err # "" THEN " error" ELSE IF e.principal # e.wprincipal THEN " principal" ELSE IF e.home # e.whome THEN " homeset"
+                                (IF e.err # "" THEN " error" ELSE IF e.principal # e.wprincipal THEN " principal" ELSE IF e.principal2 # e.wprincipal2 THEN " principal-of-second-user" ELSE IF e.home # e.whome THEN " homeset"
                                  ELSE IF e.cols # e.wcols THEN " collections" ELSE " objects")
             [] e.k = "pf" -> "propfind " \o e.srv \o " res=" \o e.res \o " depth=" \o e.depth \o " " \o PfWhy(e)
             [] OTHER -> "unknown-event"
